@@ -502,10 +502,20 @@ def observe_rel(builder, layer, fields, query):
             continue
         rec = {}
         for i in query:
+            mark_ = w.mark()
             try:
                 rec[i] = {'ok': val_to_json(fn(i), w)}
             except Exception as e:
                 rec[i] = {'err': exc_name(e)}
+            # one field call touches one entry: a user function executed for several different arguments within one call means
+            # that something dataset-wide (an id mapping) was computed again (`ids` was read before: the mapping exists)
+            if 'ids' in out:
+                by_fn = {}
+                for c_ in w.since(mark_):
+                    by_fn.setdefault(c_[0], set()).add(repr(c_[1]))
+                wide = {k: len(v) for k, v in by_fn.items() if len(v) >= 3}
+                if wide:
+                    out.setdefault('wide_calls', []).append([f, i, wide])
         vals[f] = rec
     out['values'] = vals
     # reading ids again, after every field was evaluated (also on unknown ids), gives the same ids and, for the
